@@ -19,7 +19,7 @@ import math
 
 from .progdb import AnalysisError
 from .terms import (
-    App, Const, EnumM, Num, Star, Sym, Top, Tup, V, FALSE, TRUE, INF, NAN,
+    App, Const, EnumM, Num, Star, Sym, Top, Tup, Vec, V, FALSE, TRUE, INF, NAN,
     add, compare, conj, const_of, disj, div, is_boolish, is_const, ite, mk_num, mul, neg, negate,
     powv, sub, to_poly, same,
 )
@@ -352,6 +352,9 @@ def np_call(ev, name, args, kwargs, node):
         if isinstance(x, Lst) and x.pappends and not x.items and hasattr(x, "comp"):
             return as_v(ev, x)
         v = as_v(ev, x)
+        if isinstance(v, Tup) and not isinstance(v, Vec) and v.items and all(to_poly(i) is not None and not isinstance(i, Star) for i in v.items) \
+                and isinstance(x, (Lst, Tup)):
+            return Vec(v.items)
         if name == "array" and storage_root(v) is not None:
             return App("fresh", (v,))
         return v
@@ -404,7 +407,14 @@ def np_call(ev, name, args, kwargs, node):
         x, lo, hi = as_v(ev, arg(0, "a")), as_v(ev, arg(1, "a_min")), as_v(ev, arg(2, "a_max"))
         return mk_app("max", [lo, mk_app("min", [hi, x])])
     if name in ("floor", "ceil"):
-        return mk_app(name, [as_v(ev, arg(0))])
+        x0 = as_v(ev, arg(0))
+        if isinstance(x0, Vec) and x0.items:
+            return Vec([mk_app(name, [i]) for i in x0.items])
+        return mk_app(name, [x0])
+    if name in ("any", "all") and len(A) == 1 and not kwargs:
+        x0 = as_v(ev, A[0])
+        if isinstance(x0, Vec) and x0.items and all(is_boolish(i) for i in x0.items):
+            return disj(list(x0.items)) if name == "any" else conj(list(x0.items))
     if name in ("abs", "absolute", "fabs"):
         return mk_app("abs", [as_v(ev, arg(0))])
     if name == "power":
@@ -835,7 +845,7 @@ def getitem(ev, base, idx, node=None):
                 return base.items[i]
         if isinstance(idx, App) and idx.fn == "slice" and all(is_const(a) for a in idx.args) and not any(isinstance(x, Star) for x in base.items):
             lo, hi, st = [const_of(a) for a in idx.args]
-            return Tup(base.items[slice(lo, hi, st)])
+            return type(base)(base.items[slice(lo, hi, st)])
     if isinstance(base, Const) and isinstance(base.value, str) and is_const(idx):
         try:
             return Const(base.value[const_of(idx)])
